@@ -1,30 +1,38 @@
 package midicat
 
 import (
+	"encoding/hex"
 	"fmt"
 	"io"
+	"strconv"
 )
 
 func read(rd io.Reader) (byte, error) {
 	var b = make([]byte, 1)
 
-	i, err := rd.Read(b)
+	for {
+		i, err := rd.Read(b)
 
-	if err != nil {
-		return 0, err
+		// a reader may return the last byte together with the error
+		if i == 1 {
+			return b[0], nil
+		}
+
+		if err != nil {
+			return 0, err
+		}
 	}
-
-	if i != 1 {
-		return 0, err
-	}
-
-	return b[0], nil
 }
 
+// convert decodes the hex bytes of a line. The whole field must be hex (an even number of digits).
 func convert(b []byte) (out []byte, err error) {
-	out = make([]byte, len(b)/2)
+	if len(b) == 0 {
+		return nil, fmt.Errorf("missing message bytes")
+	}
 
-	_, err = fmt.Sscanf(string(b), "%X", &out)
+	out = make([]byte, hex.DecodedLen(len(b)))
+
+	_, err = hex.Decode(out, b)
 	if err != nil {
 		return nil, err
 	}
@@ -33,13 +41,14 @@ func convert(b []byte) (out []byte, err error) {
 
 }
 
+// convertDelta parses the time field of a line. The whole field must be a decimal number.
 func convertDelta(b []byte) (deltams int32, err error) {
-	_, err = fmt.Sscanf(string(b), "%d", &deltams)
+	v, err := strconv.ParseInt(string(b), 10, 32)
 	if err != nil {
 		return -1, err
 	}
 
-	return deltams, nil
+	return int32(v), nil
 
 }
 
@@ -56,6 +65,10 @@ func Read(rd io.Reader) (out []byte, deltams int32, err error) {
 		}
 
 		if b == ' ' {
+			if deltaRead {
+				// a second separator: the line end of this record is missing
+				return nil, -1, fmt.Errorf("unexpected separator within a line")
+			}
 			deltams, err = convertDelta(deltaBf)
 			if err != nil {
 				return
